@@ -156,3 +156,56 @@ Example ex_quant : fle F32 cm128 1036831949 (* 0.1 *) = true /\ flt F32 10368319
 Proof. vm_compute. repeat split; reflexivity. Qed.
 Example ex_dec : dec_real [3; 0; 128; 63] = Some (1065353216, 4%nat) (* 1.0 *).
 Proof. vm_compute. reflexivity. Qed.
+
+(* ---- tie to the source: the Go functions of encode/buffer.go and decode/buffer.go, translated from
+   /repo's working tree by harness/gosrc.go on every run (gen/GoSrc.v), compute the model's functions,
+   for every input.  (encodeCoordinate is translated too; its equivalence with the model is not proved —
+   it needs the exactness of the float32 product f*64 — and stays tied by the correspondence run.) ---- *)
+From IVG Require Import GoSem GoSrc GenEqNum.
+
+Theorem code_encodeNatural : forall b u, 0 <= u < 4294967296 ->
+  go_encode_buffer_encodeNatural b u = b ++ enc_natural u.
+Proof. exact GenEqNum.go_encodeNatural_eq. Qed.
+Print Assumptions code_encodeNatural.
+
+Theorem code_decodeNatural : forall b, wf_bytes b ->
+  go_decode_buffer_decodeNatural b = nat_result (dec_natural b).
+Proof. exact GenEqNum.go_decodeNatural_eq. Qed.
+Print Assumptions code_decodeNatural.
+
+Theorem code_encode4ByteReal : forall b f, wf_f32 f ->
+  go_encode_buffer_encode4ByteReal b f = b ++ enc_real4 f.
+Proof. exact GenEqNum.go_encode4ByteReal_eq. Qed.
+Print Assumptions code_encode4ByteReal.
+
+Theorem code_encodeReal : forall b f, wf_f32 f ->
+  go_encode_buffer_encodeReal b f = (b ++ enc_real f, Z.of_nat (length (enc_real f))).
+Proof. exact GenEqNum.go_encodeReal_eq. Qed.
+Print Assumptions code_encodeReal.
+
+Theorem code_encodeZeroToOne : forall b f, wf_f32 f ->
+  go_encode_buffer_encodeZeroToOne b f = (b ++ enc_zero_to_one f, Z.of_nat (length (enc_zero_to_one f))).
+Proof. exact GenEqNum.go_encodeZeroToOne_eq. Qed.
+Print Assumptions code_encodeZeroToOne.
+
+Theorem code_encodeAngle : forall b f, wf_f32 f ->
+  go_encode_buffer_encodeAngle b f = (b ++ enc_angle f, Z.of_nat (length (enc_angle f))).
+Proof. exact GenEqNum.go_encodeAngle_eq. Qed.
+Print Assumptions code_encodeAngle.
+
+Theorem code_decodeReal : forall b, wf_bytes b -> go_decode_buffer_decodeReal b = num_result (dec_real b).
+Proof. exact GenEqNum.go_decodeReal_eq. Qed.
+Print Assumptions code_decodeReal.
+
+Theorem code_decodeCoordinate : forall b, wf_bytes b ->
+  go_decode_buffer_decodeCoordinate b = num_result (dec_coordinate b).
+Proof. exact GenEqNum.go_decodeCoordinate_eq. Qed.
+Print Assumptions code_decodeCoordinate.
+
+Theorem code_decodeZeroToOne : forall b, wf_bytes b ->
+  go_decode_buffer_decodeZeroToOne b = num_result (dec_zero_to_one b).
+Proof. exact GenEqNum.go_decodeZeroToOne_eq. Qed.
+Print Assumptions code_decodeZeroToOne.
+
+Example ex_code_natural : go_encode_buffer_encodeNatural [] 300 = [177; 4] /\ go_decode_buffer_decodeNatural [177; 4] = (300, 2).
+Proof. vm_compute. split; reflexivity. Qed.
